@@ -236,7 +236,11 @@ func arrayExecMerge(ar *Array, values []r.Element) (r.Element, error) {
 	// update new array
 	ar.value = result
 
-	return NewArray(result), nil
+	// the returned array is a value of its own: it does not share storage with the receiver
+	// (else adding an item to one of them overwrites the item added to the other)
+	merged := make([]r.Element, len(result))
+	copy(merged, result)
+	return NewArray(merged), nil
 }
 
 func arrayExecContains(ar *Array, values []r.Element) (r.Element, error) {
